@@ -563,29 +563,34 @@ Proof.
   - apply restored_same.
 Qed.
 
+(* the schema's own attributes hold no enum member (names, aliases, key and statistics are text / numbers / None) *)
+Definition plain_top (s : schema) : Prop :=
+  conv (s_name s) = s_name s /\ conv (s_aliases s) = s_aliases s /\ conv (s_pk s) = s_pk s /\
+  conv (s_rcm s) = s_rcm s /\ conv (s_rce s) = s_rce s /\ conv (s_dsm s) = s_dsm s /\ conv (s_dse s) = s_dse s.
+
 Lemma Forall2_restored : forall cs, Forall2 same_but_untyped_type (map restored cs) cs.
 Proof. induction cs as [|c cs IH]; cbn [map]; constructor; [apply restored_same | exact IH]. Qed.
 
 Lemma schema_dict_round_trip : forall fresh s,
   Forall persistable (s_columns s) ->
-  conv (s_name s) = s_name s -> conv (s_aliases s) = s_aliases s -> conv (s_pk s) = s_pk s ->
+  plain_top s ->
   exists s', from_dict parse fresh (to_dict s) = Ok s' /\
              s_name s' = s_name s /\ s_aliases s' = s_aliases s /\ s_pk s' = s_pk s /\
+             s_rcm s' = s_rcm s /\ s_rce s' = s_rce s /\ s_dsm s' = s_dsm s /\ s_dse s' = s_dse s /\
              Forall2 same_but_untyped_type (s_columns s') (s_columns s) /\
              s_columns s' = map restored (s_columns s).
 Proof.
-  intros fresh s H Hn Ha Hp. eexists. split; [apply from_dict_to_dict; exact H|].
-  cbn [s_name s_aliases s_pk s_columns]. repeat split; try assumption. apply Forall2_restored.
+  intros fresh s H [Hn [Ha [Hp [H1 [H2 [H3 H4]]]]]]. eexists. split; [apply from_dict_to_dict; exact H|].
+  cbn [s_name s_aliases s_pk s_columns s_rcm s_rce s_dsm s_dse]. repeat split; try assumption. apply Forall2_restored.
 Qed.
 
 Lemma schema_round_trip_exact : forall fresh s,
   Forall persistable (s_columns s) -> Forall (fun c => untyped c = false) (s_columns s) ->
-  conv (s_name s) = s_name s -> conv (s_aliases s) = s_aliases s -> conv (s_pk s) = s_pk s ->
-  s_rcm s = PNone -> s_rce s = PNone -> s_dsm s = PNone -> s_dse s = PNone ->
+  plain_top s ->
   from_dict parse fresh (to_dict s) = Ok s.
 Proof.
-  intros fresh s H Ht Hn Ha Hp H1 H2 H3 H4. rewrite (from_dict_to_dict parse fresh s H).
-  rewrite Hn, Ha, Hp, (map_restored_typed _ Ht). destruct s. cbn in *. subst. reflexivity.
+  intros fresh s H Ht [Hn [Ha [Hp [H1 [H2 [H3 H4]]]]]]. rewrite (from_dict_to_dict parse fresh s H).
+  rewrite Hn, Ha, Hp, H1, H2, H3, H4, (map_restored_typed _ Ht). destruct s. reflexivity.
 Qed.
 
 Lemma restored_validates_alike : forall fresh s s' key r,
